@@ -26,7 +26,7 @@ STUBS = ("tensornetwork numpy backend svd -> exact non-truncating factorisation"
 
 SPECTRA = {
     "sz": np.diag([1.0, -1.0]), "id2": np.diag([1.0, 1.0]), "sx": np.array([[0.0, 1.0], [1.0, 0.0]]),
-    "sz_frac": np.diag([0.25, -0.25]), "d3_frac": np.diag([0.25, 0.125, -0.5]), "d3_frac_rep": np.diag([0.25, 0.25, -0.5]),
+    "sz_frac": np.diag([0.25, -0.25]), "sz_shift": np.diag([-0.25, 0.5]), "d3_frac": np.diag([0.25, 0.125, -0.5]), "d3_frac_rep": np.diag([0.25, 0.25, -0.5]),
     "d3_013": np.diag([0.0, 1.0, 3.0]), "d3_012": np.diag([0.0, 1.0, 2.0]), "d3_m101": np.diag([-1.0, 0.0, 1.0]),
     "d3_001": np.diag([0.0, 0.0, 1.0]), "d3_111": np.diag([1.0, 1.0, 1.0]),
     # non-diagonal with a repeated eigenvalue 0 (eigenvectors: permutation type)
@@ -102,13 +102,53 @@ class H1(Case):
         return obs
 
 
+class H1mf2(Case):
+    """MeanFieldTempo with TWO systems whose baths have different coupling operators: every bath must be
+    reduced with ITS OWN degeneracy classes"""
+    stubs = STUBS
+    env = {"np_proxy_modules": ("oqupy.tempo",)}
+    functions = H1.functions
+
+    def __init__(self, c1, c2, N, K):
+        self.c1, self.c2, self.N, self.K = c1, c2, N, K
+        self.id = "H1mf2/%s+%s_N%d_K%s" % (c1, c2, N, K)
+        self.bounds = {"method": "mf", "couplings": [c1, c2], "N": N, "dkmax": K}
+        self.timeout_s = 600
+
+    def run(self, inp):
+        N, K = self.N, self.K
+        dt = 0.5
+        params = ph.parameters(dt, K, None)
+        baths, systems, rhos = [], [], []
+        for s_, c in enumerate((self.c1, self.c2)):
+            corr = ph.SymCorrelations(inp, name="eta%d" % s_)
+            bath = ph.bath_for(SPECTRA[c], corr)
+            d = bath.dimension
+            P1 = [lib.tp_prop(inp, "p%d_%d" % (s_, k), d) for k in range(N)]
+            P2 = [lib.tp_prop(inp, "q%d_%d" % (s_, k), d) for k in range(N)]
+            baths.append(bath)
+            systems.append(FieldSystem(d, P1, P2))
+            rhos.append(inp.arr("r%d" % s_, (d, d)))
+        out = {}
+        for unique in (False, True):
+            mfs = oqupy.MeanFieldSystem(systems, field_eom=lambda t, states, a: 0.0 * a)
+            mft = oqupy.MeanFieldTempo(mfs, baths, params, rhos, 1.0 + 0.0j, 0.0, unique=unique)
+            dyn = mft.compute(N * dt, progress_type="silent")
+            out[unique] = [list(sdyn._states) for sdyn in dyn.system_dynamics]
+        obs = []
+        for s_ in range(2):
+            for n in range(N + 1):
+                obs.append(Ob.eq("system %d step %d" % (s_, n), out[True][s_][n], out[False][s_][n]))
+        return obs
+
+
 def cases(tier):
     cs = []
     for m in ("tempo", "pt", "mf"):
         cs += [H1(m, "sz", 3, 1, True), H1(m, "sz", 3, None), H1(m, "id2", 3, 1), H1(m, "d3_001", 2, 1), H1(m, "d3_012", 2, None)]
     cs += [H1("tempo", "sx", 2, 1), H1("pt", "sx", 2, 1), H1("tempo", "d3_111", 2, 1), H1("pt", "d3_m101", 2, 1),
            H1("tempo", "sz_frac", 2, 1), H1("pt", "sz_frac", 2, 1), H1("mf", "sz_frac", 2, None), H1("pt", "d3_frac_rep", 2, 1),
-           H1("tempo", "d3_frac", 2, 1)]
+           H1("tempo", "d3_frac", 2, 1), H1mf2("sz", "sz_shift", 2, 1), H1mf2("sz_frac", "id2", 2, None)]
     if tier == "thorough":
         for m in ("tempo", "pt", "mf"):
             cs += [H1(m, "sz", 4, 2, True), H1(m, "id2", 4, None), H1(m, "d3_013", 2, 1), H1(m, "d3_m101", 2, None),
